@@ -1295,3 +1295,354 @@ def r47_termination(ctx, sc: SimCtx):
     if not calls:
         ctx.finding('R4.7', 'Simulator.cleanup:worker', prog.cls(BASE), sc_fn, 'Simulator.cleanup() does not call worker.cleanup(): the run thread is leaked',
                     where='Simulator.cleanup')
+
+
+# ===========================================================================================================
+# Part C: fault containment (R5.x) and replication isolation (R6.x)
+# ===========================================================================================================
+def _execute_try(sc: SimCtx, fn):
+    """the Try statement inside fn whose body executes a popped event -> (Try, handler) list"""
+    out = []
+    for t in walk_shallow(fn):
+        if isinstance(t, ast.Try) and any(isinstance(c, ast.Call) and isinstance(c.func, ast.Attribute) and c.func.attr == 'execute'
+                                          for s in t.body for c in walk_shallow(s)):
+            out.append(t)
+    return out
+
+
+def r51_strategy_table(ctx, sc: SimCtx):
+    prog = ctx.prog
+    ctx.rule('R5.1', 'effect of the except-branch around event.execute() in _run, per ErrorStrategy: continue-strategies touch nothing, pause sets exactly run_state := STOPPING; the loop head re-reads the state')
+    dc, fn, loop = find_run_loop(sc)
+    tries = [t for t in _execute_try(sc, fn) if any(x is t for x in ast.walk(loop))]
+    if len(tries) != 1:
+        ctx.ob('R5.1', '_run:try', False)
+        ctx.finding('R5.1', 'DEVSSimulator._run:no-try', dc, fn,
+                    'event.execute() in the run loop is not wrapped in exactly one try/except: a failing handler escapes the loop and the remaining events are never run',
+                    where='DEVSSimulator._run')
+        return
+    tr = tries[0]
+    catch_ok = any(h.type is None or unparse(h.type) in ('Exception', 'BaseException') for h in tr.handlers)
+    ctx.ob('R5.1', '_run:catches-Exception', catch_ok, sample=f'_run: except {[unparse(h.type) if h.type else "bare" for h in tr.handlers]}')
+    if not catch_ok:
+        ctx.finding('R5.1', 'DEVSSimulator._run:handler-type', dc, tr, 'the handler around event.execute() does not catch Exception', where='DEVSSimulator._run')
+    h = [x for x in tr.handlers if x.type is None or unparse(x.type) in ('Exception', 'BaseException')]
+    h = h[0] if h else tr.handlers[0]
+    strategies = {k: v for k, v in sc.enums['ErrorStrategy'].items() if isinstance(v, int)}
+    ctx.floor('R5.1', 'error strategies', len(strategies), 5)
+    eff = Effects(prog)
+    table = {}
+    for name, val in strategies.items():
+        ge = GuardEval(prog, dc.name, {'self._error_strategy': val}, sc.enums)
+        effects = []
+
+        def run(stmts):
+            for s in stmts:
+                if isinstance(s, ast.If):
+                    v = ge.ev(s.test)
+                    if v is True:
+                        run(s.body)
+                    elif v is False:
+                        run(s.orelse)
+                    else:
+                        effects.append(('unknown', short(s.test, 50)))
+                        run(s.body)
+                        run(s.orelse)
+                elif isinstance(s, (ast.Return, ast.Break, ast.Raise)):
+                    effects.append(('control', type(s).__name__.lower()))
+                elif isinstance(s, (ast.For, ast.While, ast.Try, ast.With)):
+                    for x in ast.iter_child_nodes(s):
+                        if isinstance(x, ast.stmt):
+                            run([x])
+                else:
+                    for (k, t, n) in eff.of(s):
+                        effects.append((k, t))
+                    for c in walk_shallow(s):
+                        if isinstance(c, ast.Call):
+                            f = unparse(c.func)
+                            if f in ('sys.exit', 'exit', 'quit', 'os._exit'):
+                                effects.append(('exit', f))
+                            elif isinstance(c.func, ast.Attribute) and is_self_attr(c.func) and c.func.attr not in FIRES \
+                                    and c.func.attr in eff.mutating_method_names():
+                                effects.append(('selfcall', c.func.attr))
+        run(h.body)
+        table[name] = effects
+        ctx.examined()
+    spec_continue = [n for n in strategies if n.endswith('_CONTINUE')]
+    spec_pause = [n for n in strategies if n.endswith('_PAUSE')]
+    for name in spec_continue:
+        ok = not table[name]
+        ctx.ob('R5.1', f'strategy:{name}', ok, sample=f'{name}: handler effects {table[name]}')
+        if not ok:
+            ctx.finding('R5.1', f'DEVSSimulator._run:{name}', dc, h,
+                        f'under {name} the handler around event.execute() has effects {table[name]}: the run does not simply continue with the next event '
+                        f'(events are lost, reordered or the run stops)', where='DEVSSimulator._run')
+    for name in spec_pause:
+        writes = [e for e in table[name] if e[0] == 'write']
+        others = [e for e in table[name] if e[0] not in ('write',) and e != ('control', 'break')]
+        ok = writes == [('write', 'self._run_state')] and not others
+        # value written
+        stop_writes = [n for n in walk_shallow(h) if isinstance(n, ast.Assign) and any(is_self_attr(t, '_run_state') for t in n.targets)]
+        ok = ok and all(unparse(w.value) == 'RunState.STOPPING' for w in stop_writes)
+        ctx.ob('R5.1', f'strategy:{name}', ok, sample=f'{name}: handler effects {table[name]}')
+        if not ok:
+            ctx.finding('R5.1', f'DEVSSimulator._run:{name}', dc, h,
+                        f'under {name} the handler must do exactly `run_state := STOPPING` (remaining events stay queued, nothing later runs); it does {table[name]}',
+                        where='DEVSSimulator._run')
+    for name in strategies:
+        if name not in spec_continue and name not in spec_pause:
+            ctx.sample(f'R5.1: {name}: handler effects {table[name]} (not constrained by the property)')
+    # loop head re-reads the run state before the next pop
+    head = sc.c(loop.test, dc.name)
+    ok = '_run_state' in head
+    ctx.ob('R5.1', '_run:loop-head', ok, sample=f'_run loop condition: {head[:100]}')
+    if not ok:
+        ctx.finding('R5.1', 'DEVSSimulator._run:loop-head', dc, loop.test, 'the run loop does not re-read the run state: a pause requested by the handler is not honoured before the next event',
+                    where='DEVSSimulator._run')
+    # nothing but the try follows the execute in the loop body that could skip events: statements after the try in the loop
+    # SimEvent.execute wraps every handler exception
+    se = prog.method('SimEvent', 'execute', inherited=False)
+    tr2 = [t for t in walk_shallow(se) if isinstance(t, ast.Try)]
+    ok = len(tr2) == 1 and any(hh.type is None or unparse(hh.type) in ('Exception', 'BaseException') for hh in tr2[0].handlers)
+    ctx.ob('R5.1', 'SimEvent.execute:wraps', ok, sample=f'SimEvent.execute: try/except {[unparse(hh.type) if hh.type else "bare" for t in tr2 for hh in t.handlers]}')
+    if not ok:
+        ctx.finding('R5.1', 'SimEvent.execute:wraps', prog.cls('SimEvent'), se, 'SimEvent.execute does not wrap the handler call in try/except Exception', where='SimEvent.execute')
+    ctx.exhaustive['R5.1 ErrorStrategy values'] = True
+
+
+def r52_handler_cannot_raise(ctx, sc: SimCtx):
+    prog = ctx.prog
+    ctx.rule('R5.2', 'no except-handler concatenates a string with the caught exception object (TypeError on every execution)')
+    n = 0
+    for oc, fn, mod in prog.functions():
+        for t in walk_shallow(fn):
+            if not isinstance(t, ast.Try):
+                continue
+            for h in t.handlers:
+                if h.name is None:
+                    continue
+                n += 1
+                bad = []
+                for b in ast.walk(h):
+                    if isinstance(b, ast.BinOp) and isinstance(b.op, ast.Add):
+                        for (x, y) in ((b.left, b.right), (b.right, b.left)):
+                            is_str = (isinstance(x, ast.Constant) and isinstance(x.value, str)) or isinstance(x, ast.JoinedStr) \
+                                or (isinstance(x, ast.BinOp) and isinstance(x.op, ast.Add) and any(isinstance(z, ast.Constant) and isinstance(z.value, str) for z in ast.walk(x)))
+                            if is_str and isinstance(y, ast.Name) and y.id == h.name:
+                                bad.append(b)
+                where_ = f'{oc.name}.{fn.name}' if oc else fn.name
+                ok = not bad
+                ctx.ob('R5.2', f'{where_}:except-{h.name}', ok, sample=f'{where_}: except … as {h.name}: string+exception concatenations {len(bad)}')
+                for b in bad[:1]:
+                    ctx.finding('R5.2', f'{where_}:str+{h.name}', oc, b,
+                                f'`{short(b)}` adds a str and the exception object {h.name}: TypeError is raised inside the handler and escapes as an unrelated error',
+                                where=where_, module=mod)
+    ctx.floor('R5.2', 'named except handlers', n, 3)
+
+
+def r53_step_finally(ctx, sc: SimCtx):
+    prog = ctx.prog
+    ctx.rule('R5.3', 'step(): on every path after START (normal or exceptional) STOP_EVENT is fired and run_state := STOPPED; its handler calls nothing that can fail')
+    dc, fn = prog.resolve(SIM, 'step')
+    g = CFG(fn)
+    starts = _fires_of(fn, 'START_EVENT')
+    if not starts:
+        raise AnalysisError('anchor vanished: step() fires no START_EVENT')
+    sn = _node_containing(g, starts[0])
+    stopped = [n for w in _writes_of(fn, '_run_state', 'RunState.STOPPED') for n in _nodes_containing(g, w)]
+    bad = g.reaches(sn, g.exit, avoid=stopped) or g.reaches(sn, g.rexit, avoid=stopped)
+    # also: the state write STARTED must be covered
+    started = [n for w in _writes_of(fn, '_run_state', 'RunState.STARTED') for n in _nodes_containing(g, w)]
+    for s in started:
+        bad = bad or g.reaches(s, g.exit, avoid=stopped) or g.reaches(s, g.rexit, avoid=stopped)
+    ok = not bad and bool(stopped)
+    ctx.ob('R5.3', 'Simulator.step:STOPPED', ok, sample=f'step(): run_state := STOPPED on every path after START (incl. exceptional): {ok}')
+    if not ok:
+        ctx.finding('R5.3', 'Simulator.step:STOPPED', dc, fn, 'step() can leave the simulator in state STARTED when the step fails', where='Simulator.step')
+    # handler contents: only print / logging / str / traceback calls
+    allowed = ('print', 'str', 'repr', 'format')
+    for t in walk_shallow(fn):
+        if isinstance(t, ast.Try):
+            for h in t.handlers:
+                risky = []
+                for c in ast.walk(h):
+                    if isinstance(c, ast.Call):
+                        f = unparse(c.func)
+                        if not (f in allowed or f.startswith('logger.') or f.startswith('traceback.') or f.startswith('logging.')):
+                            risky.append(f)
+                    if isinstance(c, ast.Raise):
+                        risky.append('raise')
+                ok = not risky
+                ctx.ob('R5.3', 'Simulator.step:handler', ok, sample=f'step() handler calls only reporting functions: {ok} {risky}')
+                if not ok:
+                    ctx.finding('R5.3', 'Simulator.step:handler', dc, h, f'the except-handler of step() performs {risky}, which can fail or re-raise', where='Simulator.step')
+
+
+# --------------------------------------------------------------------------- R6.x
+def r61_initialize_order(ctx, sc: SimCtx):
+    prog = ctx.prog
+    ctx.rule('R6.1', 'initialize: running-guard -> eventlist.clear() -> clock := start -> construct_model() exactly once -> one warm-up at MAX_PRIORITY, ordered by dominance')
+    NORMAL = ('exc', 'raise', 'reraise')
+    dci, dfn = prog.resolve(SIM, 'initialize')
+    bci, bfn = prog.resolve(SIM, 'initialize', after=dci.name)
+    if bfn is None:
+        raise AnalysisError('anchor vanished: Simulator.initialize')
+    gd, gb = CFG(dfn), CFG(bfn)
+    sup = [c for c in walk_shallow(dfn) if isinstance(c, ast.Call) and isinstance(c.func, ast.Attribute) and is_super_call(c.func.value) and c.func.attr == 'initialize']
+    clears = [c for c in walk_shallow(dfn) if isinstance(c, ast.Call) and isinstance(c.func, ast.Attribute) and c.func.attr == 'clear' and sc.is_evl(c.func.value, dci.name)]
+    ok = len(sup) == 1 and len(clears) >= 1 and gd.dominates(_node_containing(gd, clears[0]), _node_containing(gd, sup[0]))
+    ctx.ob('R6.1', 'clear-before-construct', ok, sample=f'DEVSSimulator.initialize: eventlist.clear() dominates super().initialize(): {ok}')
+    if not ok:
+        ctx.finding('R6.1', 'DEVSSimulator.initialize:clear-order', dci, clears[0] if clears else dfn,
+                    'the event list is not cleared before the base initialisation constructs the model: events of the previous replication survive, '
+                    'or the first events of the new model are discarded', where='DEVSSimulator.initialize')
+    # running guard dominates clear
+    if clears:
+        cn = _node_containing(gd, clears[0])
+        ge = GuardEval(prog, SIM, {'self._run_state': 'STARTED'}, sc.enums)
+        blocked = any((ge.ev(c.ast) is not None and ge.ev(c.ast) != br) for (c, br) in gd.guard_branches(cn))
+        ctx.ob('R6.1', 'running-guard-before-clear', blocked, sample=f'eventlist.clear() unreachable while running: {blocked}')
+        if not blocked:
+            ctx.finding('R6.1', 'DEVSSimulator.initialize:running-guard', dci, clears[0], 'the event list can be cleared while the simulator is running', where='DEVSSimulator.initialize')
+    # base: clock reset dominates construct_model; construct_model on every normal path exactly once
+    cm = [c for c in walk_shallow(bfn) if isinstance(c, ast.Call) and isinstance(c.func, ast.Attribute) and c.func.attr == 'construct_model']
+    resets = [st for st in walk_shallow(bfn) if isinstance(st, ast.Assign) and any(is_self_attr(t, sc.clock) for t in st.targets)
+              and unparse(st.value).endswith('start_sim_time')]
+    in_loop = any(isinstance(l, (ast.For, ast.While)) and any(x is c for x in ast.walk(l)) for l in walk_shallow(bfn) for c in cm)
+    ok = len(cm) == 1 and not in_loop and not gb.reaches(gb.entry, gb.exit, avoid=_nodes_containing(gb, cm[0]), labels_excluded=NORMAL)
+    ctx.ob('R6.1', 'construct-once', ok, sample=f'Simulator.initialize: model.construct_model() exactly once on every normal path: {ok}')
+    if not ok:
+        ctx.finding('R6.1', 'Simulator.initialize:construct_model', bci, cm[0] if cm else bfn, 'construct_model() is not called exactly once on every path of initialize',
+                    where='Simulator.initialize')
+    ok = bool(resets) and bool(cm) and gb.dominates(gb.node_for(resets[0]), _node_containing(gb, cm[0]))
+    ctx.ob('R6.1', 'clock-reset-before-construct', ok, sample=f'Simulator.initialize: clock := replication.start_sim_time dominates construct_model(): {ok}')
+    if not ok:
+        ctx.finding('R6.1', 'Simulator.initialize:clock-reset', bci, resets[0] if resets else bfn,
+                    'the clock is not reset to the replication start before construct_model(): events scheduled by the model use the clock of the previous replication',
+                    where='Simulator.initialize')
+    # states := INITIALIZED on every normal path
+    for fld, val in (('_run_state', 'RunState.INITIALIZED'), ('_replication_state', 'ReplicationState.INITIALIZED')):
+        ws = [n for w in _writes_of(bfn, fld, val) for n in _nodes_containing(gb, w)]
+        ok = bool(ws) and not gb.reaches(gb.entry, gb.exit, avoid=ws, labels_excluded=NORMAL)
+        ctx.ob('R6.1', f'{fld}:=INITIALIZED', ok)
+        if not ok:
+            ctx.finding('R6.1', f'Simulator.initialize:{fld}', bci, bfn, f'{fld} is not set to {val} on every path of initialize', where='Simulator.initialize')
+    # warm-up priority
+    sched = [c for c in walk_shallow(dfn) if isinstance(c, ast.Call) and isinstance(c.func, ast.Attribute) and c.func.attr.startswith('schedule_event')
+             and any(isinstance(a, ast.Constant) and a.value == 'warmup' for a in c.args)]
+    pr = None
+    if sched:
+        for kw in sched[0].keywords:
+            if kw.arg == 'priority':
+                pr = kw.value
+        if pr is None:
+            d2, f2 = prog.resolve(SIM, sched[0].func.attr)
+            names = [a.arg for a in f2.args.args[1:]]
+            if 'priority' in names and names.index('priority') < len(sched[0].args):
+                pr = sched[0].args[names.index('priority')]
+    prv = None
+    if isinstance(pr, ast.Attribute) and isinstance(pr.value, ast.Name):
+        prv = prog.const(pr.value.id, pr.attr)
+    normal = prog.const('SimEventInterface', 'NORMAL_PRIORITY')
+    ok = prv is not NOCONST and prv is not None and normal is not NOCONST and isinstance(prv, int) and prv > normal
+    ctx.ob('R6.1', 'warmup-priority', ok, sample=f'warm-up scheduled with priority {unparse(pr) if pr is not None else None} = {prv} > NORMAL_PRIORITY {normal}')
+    if not ok:
+        ctx.finding('R6.1', 'DEVSSimulator.initialize:warmup-priority', dci, sched[0] if sched else dfn,
+                    'the warm-up event is not scheduled with a priority above NORMAL_PRIORITY: model events at the warm-up instant can run before the statistics are reset',
+                    where='DEVSSimulator.initialize')
+
+
+def r62_registries(ctx, sc: SimCtx):
+    prog = ctx.prog
+    ctx.rule('R6.2', 'per-replication registries (insert-after-"already registered"-guard, filled from statistics constructors) are cleared by initialize before construct_model()')
+    # registries: method with `if k in self.F: raise` and `self.F[k] = v`
+    regs = []
+    for ci in prog.classes.values():
+        for fn in ci.methods.values():
+            ins = [n for n in walk_shallow(fn) if isinstance(n, ast.Subscript) and isinstance(n.ctx, ast.Store) and is_self_attr(n.value)]
+            for s in ins:
+                F = s.value.attr
+                guarded = any(isinstance(i, ast.If) and any(isinstance(x, ast.Raise) for x in i.body) and isinstance(i.test, ast.Compare)
+                              and isinstance(i.test.ops[0], ast.In) and is_self_attr(i.test.comparators[0], F) for i in walk_shallow(fn))
+                if guarded:
+                    regs.append((ci, fn, F))
+    # which of them are fed from constructors of simulation statistics
+    stat_ctors = [(c, prog.classes[c].methods['__init__']) for c in prog.classes
+                  if 'SimStatisticsInterface' in prog.mro(c) and '__init__' in prog.classes[c].methods]
+    n = 0
+    for (ci, fn, F) in regs:
+        feeders = [c for (c, init) in stat_ctors if any(isinstance(x, ast.Call) and isinstance(x.func, ast.Attribute) and x.func.attr == fn.name
+                                                       for x in walk_shallow(init))]
+        if not feeders:
+            continue
+        n += 1
+        # the clearing construct on the initialize path, before construct_model
+        bci, bfn = prog.resolve(BASE, 'initialize')
+        gb = CFG(bfn)
+        cm = [c for c in walk_shallow(bfn) if isinstance(c, ast.Call) and isinstance(c.func, ast.Attribute) and c.func.attr == 'construct_model']
+        getters = {m for m, f in ci.methods.items() if (lambda r: r is not None and is_self_attr(r, F))(prog.simple_return(ci.name, m))}
+        clearers = {m for m, f in ci.methods.items() if any(
+            (isinstance(x, ast.Call) and isinstance(x.func, ast.Attribute) and x.func.attr == 'clear' and is_self_attr(x.func.value, F))
+            or (isinstance(x, ast.Assign) and any(is_self_attr(t, F) for t in x.targets) and isinstance(x.value, (ast.Dict, ast.Call)))
+            for x in walk_shallow(f)) and m != '__init__'}
+        found = None
+        for c in walk_shallow(bfn):
+            if isinstance(c, ast.Call) and isinstance(c.func, ast.Attribute):
+                if c.func.attr == 'clear':
+                    r = c.func.value
+                    if (isinstance(r, ast.Call) and isinstance(r.func, ast.Attribute) and r.func.attr in getters) or (isinstance(r, ast.Attribute) and r.attr in getters | {F}):
+                        found = c
+                elif c.func.attr in clearers and not is_self_attr(c.func):
+                    found = c
+        ok = found is not None and bool(cm) and gb.dominates(_node_containing(gb, found), _node_containing(gb, cm[0]))
+        ctx.ob('R6.2', f'{ci.name}.{F}', ok, sample=f'registry {ci.name}.{F} (filled by {fn.name} from {feeders}) cleared before construct_model(): {ok}')
+        if not ok:
+            ctx.finding('R6.2', f'{ci.name}.{F}:never-cleared', ci, fn,
+                        f'{ci.name}.{F} is filled by {fn.name}(), which refuses duplicates, from the constructors of {feeders} -- which the documentation tells users '
+                        f'to call in construct_model() -- but initialize never clears it: a second initialize of the same model raises "already registered"',
+                        where=f'{ci.name}.{fn.name}')
+    ctx.floor('R6.2', 'per-replication registries', n, 1)
+
+
+def r63_reset_completeness(ctx, sc: SimCtx):
+    prog = ctx.prog
+    ctx.rule('R6.3', 'every simulator field written on the run path is re-assigned by initialize on all paths or by _start_impl before each run')
+    run_fns = []
+    for name in ('_run', '_step_impl', 'step', '_start_impl'):
+        dc, fn = prog.resolve(SIM, name)
+        if fn is not None:
+            run_fns.append((dc, fn, 'self'))
+    wr = prog.method('SimulatorWorkerThread', 'run', inherited=False)
+    written = {}
+    for (dc, fn, _r) in run_fns:
+        for n in walk_shallow(fn):
+            if is_self_attr(n) and isinstance(n.ctx, ast.Store):
+                written.setdefault(n.attr, f'{dc.name}.{fn.name}')
+    for n in walk_shallow(wr):
+        if isinstance(n, ast.Attribute) and isinstance(n.ctx, ast.Store) and isinstance(n.value, ast.Attribute) and is_self_attr(n.value, '_job'):
+            written.setdefault(n.attr, 'SimulatorWorkerThread.run')
+    ctx.floor('R6.3', 'run-dirty fields', len(written), 4)
+    NORMAL = ('exc', 'raise', 'reraise')
+    dci, dfn = prog.resolve(SIM, 'initialize')
+    bci, bfn = prog.resolve(SIM, 'initialize', after=dci.name)
+    sci, sfn = prog.resolve(SIM, '_start_impl')
+    for f, where_ in sorted(written.items()):
+        ok = False
+        how = ''
+        for (ci, fn) in ((dci, dfn), (bci, bfn)):
+            g = CFG(fn)
+            ws = [g.node_for(st) for st in walk_shallow(fn) if isinstance(st, (ast.Assign, ast.AnnAssign)) and
+                  any(is_self_attr(t, f) for t in (st.targets if isinstance(st, ast.Assign) else [st.target]))]
+            if ws and not g.reaches(g.entry, g.exit, avoid=ws, labels_excluded=NORMAL):
+                ok = True
+                how = f'assigned on every path of {ci.name}.initialize'
+        if not ok:
+            ws = [st for st in walk_shallow(sfn) if isinstance(st, ast.Assign) and any(is_self_attr(t, f) for t in st.targets)]
+            if ws:
+                ok = True
+                how = 'assigned by _start_impl for every run'
+        ctx.ob('R6.3', f'field:{f}', ok, sample=f'{f} (written in {where_}): {how or "NOT reset"}')
+        if not ok:
+            ctx.finding('R6.3', f'Simulator.{f}:not-reset', bci, bfn,
+                        f'field {f} is written during a run ({where_}) but neither initialize nor _start_impl re-assigns it: state of the previous replication leaks into the next',
+                        where='Simulator.initialize')
